@@ -43,7 +43,7 @@ struct StreamState {
     bool write_parked = false; HandlerRW write_h; std::string write_data; bool write_delivered = false; bool write_hung = false; std::optional<WorkGuard> write_w;
     std::string lw_data; size_t lw_written = 0; int64_t lw_start_ns = 0; size_t lw_seq_start = 0;   // logical (composed) write in progress: asio::async_write continues after short writes
     bool shutdown_parked = false, shutdown_hung = false; Handler0 shutdown_h; std::optional<WorkGuard> shutdown_w;
-    int64_t connect_started_ns = -1, closed_ns = -1, first_error_ns = -1, connect_done_ns = -1; bool connect_failed = false; int host_index = -1; size_t connect_seq = 0; int64_t read_cancelled_ns = -1;   // first time a parked read was cancelled through its slot (timed read)
+    int64_t connect_started_ns = -1, closed_ns = -1, first_error_ns = -1, connect_done_ns = -1; bool connect_failed = false; bool closed_after_stop = false; /* closed while the client was being stopped (cancel / destruction / epilogue) */ int host_index = -1; size_t connect_seq = 0; int64_t read_cancelled_ns = -1;   // first time a parked read was cancelled through its slot (timed read)
 };
 using StreamPtr = std::shared_ptr<StreamState>;
 
